@@ -243,7 +243,10 @@ def _returns_size(cad, path, sz):
     ok = True
     for b in cad.all_bodies:
         if strip_generics(b.path) == path:
-            T = Terms(b)
+            try:
+                T = Terms(W.inl(cad, b, never=lambda x: _len_like_local(cad, strip_generics(x.path))))     # combinators (`opt.map_or(0, |c| 2 + c.len())`) read in their desugared form
+            except Exception:
+                T = Terms(b)
             for r in ret_terms(T, [0]):
                 for leaf in flatten_phi(norm(r)):
                     while leaf[0] == 'bin' and leaf[1] in ('Sub', 'SubWithOverflow') and norm(leaf[3])[0] == 'const':
